@@ -245,9 +245,17 @@ func (x *Exec) runTop() {
 	if canaryIdx < 0 && len(ct.Ensures) > 0 && !x.discover && len(fr.retState) > 0 {
 		// only return-anchored clauses: the canary negates the first one at its first matching return
 		en := ct.Ensures[0]
+		cmatched := 0
 		for ri := range fr.retState {
 			ins := fr.retBlock[ri].Instrs[len(fr.retBlock[ri].Instrs)-1]
-			if en.At != "" && !strings.Contains(x.lineText(ins.Pos()), en.At) {
+			if en.At != "" && en.At != "end" && !strings.Contains(x.lineText(ins.Pos()), en.At) {
+				continue
+			}
+			if en.At == "end" && ins.Pos().IsValid() && strings.Contains(x.lineText(ins.Pos()), "return") {
+				continue
+			}
+			cmatched++
+			if en.AtN != 0 && cmatched != en.AtN {
 				continue
 			}
 			renv := x.envAt(fr, fr.retBlock[ri], fr.retState[ri])
